@@ -76,7 +76,10 @@ def generate(rng, tier):
                         j = rng.randint(first, first + cnt - 1)
                         out.append({'op': 'index', 'ch': r['ch'], 'i': j if rng.random() < 0.7 else j - n,
                                     # issued from another thread that runs to completion (no concurrency: one after the other)
-                                    'thread': rng.random() < 0.3})
+                                    'thread': rng.random() < 0.3,
+                                    # the channel object is copied in between (frameworks copy or pickle what they are handed);
+                                    # the copy is thrown away
+                                    'copied': rng.random() < 0.15})
     cut = None
     last = w.segs[-1]
     if (last.layout != 'daqmx' and last.end - last.data_pos > 1 and not spec['segments'][-1].get('short_last')
@@ -204,7 +207,15 @@ def execute(case):
                         res.skipped_ops += 1
                         continue
                 mark = st.fs.mark()
-                op_ = {k: v for k, v in op.items() if k != 'thread'}
+                op_ = {k: v for k, v in op.items() if k not in ('thread', 'copied')}
+                if op.get('copied'):
+                    import copy
+                    try:
+                        copy.copy(ops.chan(tf, w, op['ch']))
+                        res.probe('channel-copied-in-between')
+                    except Exception:
+                        pass
+                    mark = st.fs.mark()
                 if op.get('thread'):
                     res.probe('index-from-another-thread')
                     got, exc, eo = ops.try_op(lambda: in_thread(lambda: ops.do_op(tf, w, op_)))
